@@ -40,6 +40,9 @@ enum Edit {
     MoveS0ToF1,
     UpdateS1,
     CreateInF1,
+    /// update (new label and value) the note this device created earlier
+    /// in the same offline suffix
+    UpdateCreated,
 }
 
 impl Edit {
@@ -57,6 +60,7 @@ impl Edit {
             Edit::MoveS0ToF1 => "move_s0",
             Edit::UpdateS1 => "update_s1",
             Edit::CreateInF1 => "create_in_f1",
+            Edit::UpdateCreated => "update_created",
         }
     }
 }
@@ -111,6 +115,7 @@ async fn apply_edit(
     t: &Template,
     e: &Edit,
     k: usize,
+    created: &mut Vec<SecretId>,
 ) -> Result<()> {
     let mut acc = dev.account.lock().await;
     let d = dev.idx;
@@ -123,7 +128,16 @@ async fn apply_edit(
     match e {
         Edit::CreateNote => {
             let (m, s) = gen::secret("note", 0, &format!("d{}k{}", d, k));
-            acc.create_secret(m, s, in_folder(default)).await?;
+            let id = acc.create_secret(m, s, in_folder(default)).await?.id;
+            created.push(id);
+        }
+        Edit::UpdateCreated => {
+            let id = *created.last().ok_or_else(|| anyhow!("nothing created yet"))?;
+            // a label that sorts BEFORE the original one and one that
+            // sorts after it behave differently in label-keyed indexes
+            let (mut m, s) = gen::secret("note", 1, &format!("d{}k{}-renamed", d, k));
+            m.set_label(format!("{}-{}", if d % 2 == 0 { "aaa-renamed" } else { "zzz-renamed" }, m.label()));
+            acc.update_secret(&id, m, Some(s), in_folder(default)).await?;
         }
         Edit::CreateInF1 => {
             let (m, s) = gen::secret("note", 1, &format!("f1d{}k{}", d, k));
@@ -181,6 +195,7 @@ fn enabled_after(prefix: &[Edit], e: &Edit) -> bool {
         .any(|p| matches!(p, Edit::DeleteS0 | Edit::MoveS0ToF1));
     let f1_gone = prefix.iter().any(|p| matches!(p, Edit::DeleteF1));
     match e {
+        Edit::UpdateCreated => prefix.iter().any(|p| matches!(p, Edit::CreateNote)),
         Edit::UpdateS0 | Edit::DeleteS0 => !s0_gone,
         Edit::MoveS0ToF1 => !s0_gone && !f1_gone,
         Edit::SetDescriptionF1
@@ -273,6 +288,7 @@ async fn check_c02_device(
     when: &str,
     cls: &str,
     fails: &mut Fails,
+    kc: &mut KeyCache,
 ) {
     let acc = dev.account.lock().await;
     let Ok(folders) = acc.list_folders().await else { return };
@@ -280,10 +296,11 @@ async fn check_c02_device(
         let id = *f.id();
         let r: Result<()> = async {
             use sos_login::DelegatedAccess;
-            let key = acc
-                .find_folder_password(&id)
-                .await?
-                .ok_or_else(|| anyhow!("no key"))?;
+            // a folder whose password is not (or no longer) delegated to
+            // this device cannot be decrypted: nothing to compare
+            let Some(key) = acc.find_folder_password(&id).await? else {
+                return Ok(());
+            };
             let log = acc.folder_log(&id).await?;
             let log = log.read().await;
             let reduced = sos_reducers::FolderReducer::new()
@@ -291,8 +308,7 @@ async fn check_c02_device(
                 .await?
                 .build(true)
                 .await?;
-            let mut kc = KeyCache::default();
-            let rv = vault_view_cached(&reduced, &key, &mut kc).await?;
+            let rv = vault_view_cached(&reduced, &key, kc).await?;
             let folder = acc.folder(&id).await?;
             let served = {
                 let ap = folder.access_point();
@@ -300,7 +316,7 @@ async fn check_c02_device(
                 use sos_vault::SecretAccess;
                 ap.vault().clone()
             };
-            let sv = vault_view_cached(&served, &key, &mut kc).await?;
+            let sv = vault_view_cached(&served, &key, kc).await?;
             let (r, s) = (folder_key_sorted(&rv), folder_key_sorted(&sv));
             if r != s {
                 let what = if r["secrets"] != s["secrets"] {
@@ -360,6 +376,66 @@ async fn debug_dump(label: &str, devices: &[Device], server: &vkit::world::Serve
     }
 }
 
+/// C20 (tagged) on one device: the incrementally maintained search index
+/// equals an index rebuilt from the unlocked folders.
+async fn check_c20_device(dev: &Device, when: &str, cls: &str, fails: &mut Fails) {
+    let acc = dev.account.lock().await;
+    let r: Result<()> = async {
+        let idx = acc.search_index().await?;
+        let idx = idx.read().await;
+        let mut fresh = sos_search::SearchIndex::new();
+        let folders = acc.list_folders().await?;
+        let archive = folders.iter().find(|f| f.flags().is_archive()).map(|f| *f.id());
+        fresh.set_archive_id(archive);
+        for f in &folders {
+            let folder = acc.folder(f.id()).await?;
+            let ap = folder.access_point();
+            let ap = ap.lock().await;
+            fresh.add_folder(&ap).await?;
+        }
+        let proj = |i: &sos_search::SearchIndex| -> Vec<String> {
+            let mut v: Vec<String> = i.values().iter().map(|d| format!("{}|{}|{}", d.folder_id(), d.id(), gen::meta_view(d.meta()))).collect();
+            v.sort();
+            v
+        };
+        let (a, f) = (proj(&idx), proj(&fresh));
+        if a != f {
+            let d = if a.len() > f.len() { "stale_or_extra_document" } else if a.len() < f.len() { "missing_document" } else { "document_content" };
+            fails.push("C20", format!("after_merge:documents_differ:{}:{}", d, cls), format!("after {} the search index differs from an index rebuilt from the folders ({})", when, d), json!({"device": dev.idx, "incremental": a.len(), "rebuilt": f.len()}));
+        }
+        let stat = |i: &sos_search::SearchIndex| -> Value {
+            let c = i.statistics().count();
+            let nz = |m: BTreeMap<String, usize>| -> BTreeMap<String, usize> { m.into_iter().filter(|(_, v)| *v > 0).collect() };
+            json!({
+                "vaults": nz(c.vaults().iter().map(|(k, v)| (k.to_string(), *v)).collect()),
+                "kinds": nz(c.kinds().iter().map(|(k, v)| (k.to_string(), *v)).collect()),
+                "tags": nz(c.tags().iter().map(|(k, v)| (k.clone(), *v)).collect()),
+                "favorites": c.favorites(),
+            })
+        };
+        if stat(&idx) != stat(&fresh) {
+            fails.push("C20", format!("after_merge:counters_differ:{}", cls), format!("after {} the search index counters differ from a recount", when), json!({"device": dev.idx, "incremental": stat(&idx), "recount": stat(&fresh)}));
+        }
+        // every live label must be found by a query, with the same result
+        for d in fresh.values() {
+            let q = |i: &sos_search::SearchIndex| -> Vec<String> {
+                let mut r: Vec<String> = i.query_map(d.meta().label(), |_| true).iter().map(|x| x.id().to_string()).collect();
+                r.sort();
+                r
+            };
+            if q(&idx) != q(&fresh) {
+                fails.push("C20", format!("after_merge:query_differs:{}", cls), format!("after {} a query for a live label returns different documents from the incremental and the rebuilt index", when), json!({"device": dev.idx}));
+                break;
+            }
+        }
+        Ok(())
+    }
+    .await;
+    if let Err(e) = r {
+        fails.push("C20", format!("after_merge:oracle_error:{}", cls), format!("after {}: {}", when, e), json!({"device": dev.idx}));
+    }
+}
+
 async fn run_scenario(t: &Template, sc: &Scenario, work: &Path) -> Value {
     let mut fails = Fails::default();
     let mut cls = sig_class(sc, false);
@@ -403,8 +479,9 @@ async fn run_scenario(t: &Template, sc: &Scenario, work: &Path) -> Value {
             if sc.clock == ClockPat::Tie {
                 clock::freeze(true);
             }
+            let mut created = vec![];
             for (k, e) in edits.iter().enumerate() {
-                apply_edit(&devices[d], t, e, k).await.map_err(|er| anyhow!("offline edit {:?} on device {} failed: {}", e, d, er))?;
+                apply_edit(&devices[d], t, e, k, &mut created).await.map_err(|er| anyhow!("offline edit {:?} on device {} failed: {}", e, d, er))?;
             }
             clock::freeze(false);
         }
@@ -440,6 +517,7 @@ async fn run_scenario(t: &Template, sc: &Scenario, work: &Path) -> Value {
             cls = sig_class(sc, identical);
         }
         let cls = cls.clone();
+        let mut kcs: Vec<KeyCache> = (0..n_edit + 1).map(|_| KeyCache::default()).collect();
         // phase 2: syncs
         let mut results = vec![];
         let mut step = 0;
@@ -454,7 +532,8 @@ async fn run_scenario(t: &Template, sc: &Scenario, work: &Path) -> Value {
             results.push(json!({"device": d, "result": r.short()}));
             last_result[d] = Some(r);
             step += 1;
-            check_c02_device(&devices[d], &format!("sync step {}", step), &cls, &mut fails).await;
+            check_c02_device(&devices[d], &format!("sync step {}", step), &cls, &mut fails, &mut kcs[d]).await;
+            check_c20_device(&devices[d], &format!("sync step {}", step), &cls, &mut fails).await;
         }
         // rounds until quiescent
         let mut converged = false;
@@ -479,7 +558,8 @@ async fn run_scenario(t: &Template, sc: &Scenario, work: &Path) -> Value {
                 results.push(json!({"device": d, "result": r.short()}));
                 last_result[d] = Some(r);
                 step += 1;
-                check_c02_device(&devices[d], &format!("sync step {}", step), &cls, &mut fails).await;
+                check_c02_device(&devices[d], &format!("sync step {}", step), &cls, &mut fails, &mut kcs[d]).await;
+                check_c20_device(&devices[d], &format!("sync step {}", step), &cls, &mut fails).await;
             }
         }
         if !converged {
@@ -641,6 +721,7 @@ async fn run_scenario(t: &Template, sc: &Scenario, work: &Path) -> Value {
                             added += 1;
                         }
                     }
+                    let contributors = sufs.iter().filter(|s| !s.is_empty()).count();
                     if lost > 0 {
                         fails.push("C05", format!("lost_event:{}:{}:{}", cls, kind, role), "an event committed offline on a device is missing from a replica's log after syncing".into(), json!({"log": name, "replica": rname, "lost": lost}));
                     }
@@ -652,7 +733,29 @@ async fn run_scenario(t: &Template, sc: &Scenario, work: &Path) -> Value {
                     }
                     // time order of the merged suffix (only when more
                     // than one device contributed)
-                    let contributors = sufs.iter().filter(|s| !s.is_empty()).count();
+                    // every device's own events keep their relative order
+                    // (timestamps never decrease along one device's log, and
+                    // ties must not be reordered)
+                    if lost == 0 && dup == 0 && added == 0 {
+                        for u in &sufs {
+                            let own: Vec<[u8; 32]> = u
+                                .iter()
+                                .map(|r| r.commit().0)
+                                .filter(|h| sufs.iter().filter(|s| s.iter().any(|x| x.commit().0 == *h)).count() == 1)
+                                .collect();
+                            let mut uniq = own.clone();
+                            uniq.sort();
+                            uniq.dedup();
+                            if uniq.len() != own.len() {
+                                continue;
+                            }
+                            let seen: Vec<[u8; 32]> = suffix.iter().map(|r| r.commit().0).filter(|h| own.contains(h)).collect();
+                            if seen != own {
+                                fails.push("C05", format!("device_order_changed:{}:{}:{}", cls, kind, role), "events committed by one device appear in the converged log in a different order than that device committed them".into(), json!({"log": name, "replica": rname}));
+                                break;
+                            }
+                        }
+                    }
                     if contributors > 1 && lost == 0 && dup == 0 && added == 0 {
                         // events made byte-identically by several
                         // devices carry a different time on each of
@@ -741,21 +844,26 @@ fn scenarios(tier: Tier, backend: Backend, server_db: bool) -> Vec<Scenario> {
         }
     }
     // unequal lengths over a small alphabet
-    let small = [Edit::CreateNote, Edit::DeleteS0, Edit::UpdateS0, Edit::RenameDefaultSame];
+    let small = [Edit::CreateNote, Edit::DeleteS0, Edit::UpdateS0, Edit::RenameDefaultSame, Edit::UpdateCreated];
     let mut doubles: Vec<Vec<Edit>> = vec![];
     for a in &small {
         for b in &small {
-            if enabled_after(&[a.clone()], b) {
+            if enabled_after(&[], a) && enabled_after(&[a.clone()], b) {
                 doubles.push(vec![a.clone(), b.clone()]);
             }
         }
     }
-    let small_singles: Vec<Vec<Edit>> = std::iter::once(vec![]).chain(small.iter().map(|e| vec![e.clone()])).collect();
+    let small_singles: Vec<Vec<Edit>> = std::iter::once(vec![]).chain(small.iter().filter(|e| enabled_after(&[], e)).map(|e| vec![e.clone()])).collect();
     for d in &doubles {
         for s in &small_singles {
             for (x, y) in [(d.clone(), s.clone()), (s.clone(), d.clone())] {
                 for o in &orders {
                     out.push(Scenario { edits: vec![x.clone(), y.clone()], order: o.clone(), clock: clocks[0], client_backend: backend, server_db });
+                }
+                // all timestamps tied: the device with two events syncs last
+                if !s.is_empty() {
+                    let o = if x.len() == 2 { vec![1, 0] } else { vec![0, 1] };
+                    out.push(Scenario { edits: vec![x.clone(), y.clone()], order: o, clock: ClockPat::Tie, client_backend: backend, server_db });
                 }
             }
         }
@@ -803,6 +911,20 @@ fn configs(tier: Tier) -> Vec<(Backend, bool)> {
 
 fn all_scenarios(tier: Tier) -> Vec<Scenario> {
     let mut v = vec![];
+    if std::env::var("SYNCX_BYPRODUCT").is_ok() && tier == Tier::Quick {
+        // reduced set for the C02 / C20 by-product runs: conflicts only
+        for sc in scenarios(tier, Backend::Fs, false) {
+            let both = sc.edits.iter().all(|e| !e.is_empty());
+            let l1 = sc.edits.iter().all(|e| e.len() == 1);
+            // the device with the longer suffix syncs last (it is the
+            // one that rewinds and replays)
+            let long_last = sc.edits.iter().position(|e| e.len() == 2).map(|d| *sc.order.last().unwrap() == d).unwrap_or(false);
+            if both && sc.clock != ClockPat::Tie && (l1 || long_last) {
+                v.push(sc);
+            }
+        }
+        return v;
+    }
     for (b, s) in configs(tier) {
         v.extend(scenarios(tier, b, s));
     }
@@ -866,10 +988,9 @@ fn main() {
                 if let Some(e) = v.get("error").and_then(|e| e.as_str()) {
                     let k: String = e.chars().take(80).collect();
                     *harness_errors.entry(k).or_default() += 1;
-                    if prop == "C04" {
-                        let short: String = e.split(':').next().unwrap_or("").chars().take(60).collect();
-                        run.fail(&format!("world_error:{}:{}", short.replace(|c: char| c.is_ascii_digit(), ""), sig_class(&scs[i], false)), "an operation of the world failed", json!({"engine":"syncx","scenario": scs[i], "error": e}));
-                    }
+                    // an offline edit or the world set-up failing is not
+                    // a statement about convergence: counted, reported in
+                    // the evidence, not a verdict
                 }
                 if let Some(o) = v.get("outcome").and_then(|o| o.as_str()) {
                     *outcomes.entry(o.to_string()).or_default() += 1;
